@@ -1,6 +1,7 @@
 import OmbottModel.Model.RouteUrl
 import OmbottModel.Lemmas.RouteUrlDom
 import OmbottModel.Lemmas.RouteUrlTree
+import OmbottModel.Lemmas.RouteUrlParse
 /-!
 C19 — Building a URL from matched parameters leads back to the same match.
 Property theorems only; helper lemmas live in `Lemmas/RouteUrl*.lean`.
@@ -188,6 +189,29 @@ theorem url_rematch_tree_partial (env : FilterEnv) (fenv : FormatEnv) (hs : NoSe
   url_rematch_tree (withInt env) fenv (noSel_withInt env hs) r hd hsel
     (allStable_plainInt env fenv r.syms hpi hadj) id t ht path vs hg
 
+/-! ### from the rule text -/
+
+/-- the route object `RadiRouter` stores for a parsed rule -/
+def routeOf (rule : Str) (p : Parsed) : Route :=
+  { rule := rule, syms := p.syms, params := p.params, symsOut := p.symsOut }
+
+/-- every rule text that `Route.parse_rule` accepts and that lies in the model's domain (no
+marker character in the text, no repeated wildcard name) gives a route in the domain of the
+theorems above: literal text free of the marker, one distinct name per wildcard, filters paired
+with the markers of the output pattern -/
+theorem parsed_rule_in_domain (cenv : CompileEnv) (rule : Str) (p : Parsed)
+    (h : parseRule cenv rule = .ok p) (hd : inDomain rule p = true) : urlDomain (routeOf rule p) = true :=
+  parseRule_urlDomain cenv rule p h hd
+
+/-- **`url_rematch` for every rule text**: rule text → `parse_rule` → match → `url` → match -/
+theorem url_rematch_rule (cenv : CompileEnv) (env : FilterEnv) (fenv : FormatEnv) (rule : Str) (p : Parsed)
+    (hp : parseRule cenv rule = .ok p) (hd : inDomain rule p = true) (hsel : selFree (routeOf rule p) = true)
+    (hst : AllStable env fenv p.syms)
+    (path : Str) (vs : List Val) (hm : matchRule env p.syms path = some vs) :
+    ∃ u, routeUrl env fenv (routeOf rule p) (splitArgs p.params vs).1 (splitArgs p.params vs).2 = .ok u ∧
+      matchRule env p.syms u = some vs :=
+  url_rematch env fenv (routeOf rule p) (parsed_rule_in_domain cenv rule p hp hd) hsel hst path vs hm
+
 /-! ### non-vacuity and witnesses -/
 section NonVacuity
 
@@ -252,6 +276,13 @@ example : ∃ t, treeAdd Node.root exRoute.syms 0 exRoute.params = .ok t ∧
   have : matchRule (withInt noEnv) exRoute.syms "a/007--0/k".toList
       = some [intVal 7, intVal 0, .str "k".toList] := by decide
   rw [this]; rfl
+
+/-- `parsed_rule_in_domain` / `url_rematch_rule`: the rule text of `exRoute` parses to it and is
+in the domain -/
+example : (parseRule (fun _ => none) exRoute.rule).toOption.map (fun p => (p.syms, p.params, p.symsOut))
+      = some (exRoute.syms, exRoute.params, exRoute.symsOut) ∧
+    (parseRule (fun _ => none) exRoute.rule).toOption.map (inDomain exRoute.rule) = some true := by
+  decide
 
 end NonVacuity
 
